@@ -95,6 +95,10 @@ pub fn fillers(d: Dialect) -> Vec<X> {
         v.push(X::Like(b(p.clone()), n, b(X::Text("a%".into())), None));
         v.push(X::Like(b(p.clone()), n, b(X::Text("a!%".into())), Some('!')));
         v.push(X::Like(b(p.clone()), n, b(q.clone()), None));
+        if d == Dialect::Postgres {
+            v.push(X::ILike(b(p.clone()), n, b(X::Text("a!%".into())), Some('!')));
+            v.push(X::ILike(b(p.clone()), n, b(q.clone()), None));
+        }
         v.push(X::In(b(p.clone()), n, vec![q.clone(), r.clone()]));
         v.push(X::In(b(p.clone()), n, vec![]));
         v.push(X::IsNull(b(p.clone()), n));
@@ -129,6 +133,12 @@ pub fn frames(d: Dialect, h: &X) -> Vec<(String, X)> {
         v.push((format!("{t}LIKE/pat"), X::Like(b(s.clone()), n, b(h.clone()), None)));
         v.push((format!("{t}LIKE+ESC/e"), X::Like(b(h.clone()), n, b(X::Text("a%".into())), Some('!'))));
         v.push((format!("{t}LIKE+ESC/pat"), X::Like(b(s.clone()), n, b(h.clone()), Some('!'))));
+        if d == Dialect::Postgres {
+            v.push((format!("{t}ILIKE/e"), X::ILike(b(h.clone()), n, b(X::Text("a%".into())), None)));
+            v.push((format!("{t}ILIKE/pat"), X::ILike(b(s.clone()), n, b(h.clone()), None)));
+            v.push((format!("{t}ILIKE+ESC/e"), X::ILike(b(h.clone()), n, b(X::Text("a%".into())), Some('!'))));
+            v.push((format!("{t}ILIKE+ESC/pat"), X::ILike(b(s.clone()), n, b(h.clone()), Some('!'))));
+        }
         v.push((format!("{t}IN/e"), X::In(b(h.clone()), n, vec![r.clone(), s.clone()])));
         v.push((format!("{t}IN/item"), X::In(b(s.clone()), n, vec![h.clone(), r.clone()])));
         v.push((format!("IS {t}NULL"), X::IsNull(b(h.clone()), n)));
@@ -313,10 +323,12 @@ pub fn random_tree(rng: &mut Rng, d: Dialect, depth: usize) -> X {
         7 => X::Between(b(sub(rng)), rng.coin(), b(sub(rng)), b(sub(rng))),
         8 => {
             let esc = if rng.coin() { Some(*rng.pick(&['!', '\\', '#'])) } else { None };
-            if rng.coin() {
-                X::Like(b(sub(rng)), rng.coin(), b(X::Text(rng.pick(&["a%", "_b", "%"]).to_string())), esc)
+            let ilike = d == Dialect::Postgres && rng.chance(1, 3);
+            let pat = if rng.coin() { X::Text(rng.pick(&["a%", "_b", "%"]).to_string()) } else { sub(rng) };
+            if ilike {
+                X::ILike(b(sub(rng)), rng.coin(), b(pat), esc)
             } else {
-                X::Like(b(sub(rng)), rng.coin(), b(sub(rng)), esc)
+                X::Like(b(sub(rng)), rng.coin(), b(pat), esc)
             }
         }
         9 => {
